@@ -810,7 +810,7 @@ func TestCheck(t *testing.T) {
 		return f
 	})
 	r.Main(evid.Meta{
-		Rule:        discsim.RuleDup + ". defaults (real sockets): the request tokens a server sees from a client built with default options by each constructor (udp, dtls, tcp, tls) are 8 bytes and pairwise different; a datagram client with a maximum message size below the MTU returns a longer response complete or not at all. match: a client connection (datagram and stream, block-wise on/off) in a synctest bubble; 1-8 callers issue GETs concurrently with caller-chosen tokens of 1-8 bytes from families built to collide as far as tokens can (same bytes at different lengths, shared prefixes, leading and trailing zero padding, all-zero tokens), NSTART and the parallel-request limits either high (true concurrency) or at the library defaults (serialised); the scripted peer answers the collected requests in a generated permutation, each in a generated style (piggy-backed, empty ACK then separate CON/NON response, response before its ACK, delayed, duplicated with the same or a fresh message ID), and injects stray responses whose tokens are unknown, proper prefixes or extensions of outstanding ones; optionally a second request re-uses a token that is still outstanding, either at once or in the middle of the first one's block-wise download; callers keep their response for a generated time, look at it again and give it back to the pool or not; optionally, after every call has returned, one more request takes the token of a call that was answered by a separate confirmable response while the peer retransmits that response; with block-wise on, a quarter of the answers are bodies of 2-6 blocks the client has to fetch block by block with the same token (on streams the peer's CSM announces block-wise transfer). Oracle: every successful call returns its own token and the payload the peer produced for that request (payload = f(request index, token)); a call the peer answered succeeds; of two simultaneous calls with one token exactly one gets the response and the other is refused, and the first still completes; a response does not change while its caller holds it; a retransmitted response is not delivered a second time; every call returns by its deadline. real: 2-6 concurrent callers with own tokens over UDP, DTLS-PSK, TCP and TLS loopback sockets against the library's own server, whose handler holds every request and answers in a generated order, some with bodies that need block-wise transfer. Non-trivial = >= 2 requests outstanding at once and (answer order != request order, or a non-piggy-backed/duplicated style, or a duplicate token); distinct by scenario",
+		Rule:        discsim.RuleDup + ". defaults (real sockets): the request tokens a server sees from a client built with default options by each constructor (udp, dtls, tcp, tls) are 8 bytes and pairwise different, and so are 600-100000 consecutive draws from the default token source itself (1-4 goroutines); a datagram client with a maximum message size below the MTU returns a longer response complete or not at all. match: a client connection (datagram and stream, block-wise on/off) in a synctest bubble; 1-8 callers issue GETs concurrently with caller-chosen tokens of 1-8 bytes from families built to collide as far as tokens can (same bytes at different lengths, shared prefixes, leading and trailing zero padding, all-zero tokens), NSTART and the parallel-request limits either high (true concurrency) or at the library defaults (serialised); the scripted peer answers the collected requests in a generated permutation, each in a generated style (piggy-backed, empty ACK then separate CON/NON response, response before its ACK, delayed, duplicated with the same or a fresh message ID), and injects stray responses whose tokens are unknown, proper prefixes or extensions of outstanding ones; optionally a second request re-uses a token that is still outstanding, either at once or in the middle of the first one's block-wise download; callers keep their response for a generated time, look at it again and give it back to the pool or not; optionally, after every call has returned, one more request takes the token of a call that was answered by a separate confirmable response while the peer retransmits that response; with block-wise on, a quarter of the answers are bodies of 2-6 blocks the client has to fetch block by block with the same token (on streams the peer's CSM announces block-wise transfer). Oracle: every successful call returns its own token and the payload the peer produced for that request (payload = f(request index, token)); a call the peer answered succeeds; of two simultaneous calls with one token exactly one gets the response and the other is refused, and the first still completes; a response does not change while its caller holds it; a retransmitted response is not delivered a second time; every call returns by its deadline. real: 2-6 concurrent callers with own tokens over UDP, DTLS-PSK, TCP and TLS loopback sockets against the library's own server, whose handler holds every request and answers in a generated order, some with bodies that need block-wise transfer. Non-trivial = >= 2 requests outstanding at once and (answer order != request order, or a non-piggy-backed/duplicated style, or a duplicate token); distinct by scenario",
 		Assumptions: []string{"a token is taken again after its exchange has ended only in one constellation the library can tell apart: the earlier response was confirmable and the peer retransmits exactly that message (same message ID), which de-duplication by message ID answers without delivering it; late copies with other message IDs and responses for timed-out requests are the caller's risk (RFC 7252 5.3.1) and not generated", "CRC-64 collisions between different tokens (the tables are keyed by Token.Hash()) are not constructed", "the real engine runs the same oracle over UDP, DTLS-PSK, TCP and TLS loopback sockets against the library's own servers (real time; a failure counts only if it reproduces three times in a row)"},
 		Floor:       300,
 	}, eng, realEngine(), discsim.Engine(r, "dup", 6, 150), discsim.Engine(r, "dupblocks", 4, 100), defaultsEngine(r))
